@@ -89,6 +89,80 @@ func Random(n int, r *fw.Rand) *Graph {
 	return g
 }
 
+// DepthRace builds a graph in which a file X is reachable from the root through a short
+// and a long path and has a tail of imports below it, and returns depth limits that cut part of
+// the tail when measured along the long path but not along the short one: the shapes for which
+// "exactly the files nearer than n" depends on which path reaches X first.
+func DepthRace(r *fw.Rand) (*Graph, []int) {
+	short := r.Range(1, 2) // distance of X along the short path
+	long := short + r.Range(1, 3)
+	tail := r.Range(1, 3)
+	n := 1 + (short - 1) + (long - 1) + 1 + tail
+	for n > len(nodeNames) {
+		tail--
+		n--
+	}
+	// shuffle which file name plays which role (directories differ), root stays first
+	perm := append([]int{0}, func() []int {
+		p := r.Perm(n - 1)
+		for i := range p {
+			p[i]++
+		}
+		return p
+	}()...)
+	g := &Graph{Names: append([]string{}, nodeNames[:n]...), Edges: make([][]int, n), Spell: make([][]string, n)}
+	next := 1
+	role := func() int { k := perm[next]; next++; return k }
+	x := role()
+	add := func(from, to int) {
+		g.Edges[from] = append(g.Edges[from], to)
+		g.Spell[from] = append(g.Spell[from], Spelling(r, g.Names[from], g.Names[to]))
+	}
+	path := func(length int) [][2]int {
+		var es [][2]int
+		cur := 0
+		for k := 1; k < length; k++ {
+			m := role()
+			es = append(es, [2]int{cur, m})
+			cur = m
+		}
+		return append(es, [2]int{cur, x})
+	}
+	se, le := path(short), path(long)
+	// the two paths leave the root in either textual order
+	first, second := se, le
+	if r.Chance(1, 2) {
+		first, second = le, se
+	}
+	add(first[0][0], first[0][1])
+	add(second[0][0], second[0][1])
+	for _, e := range append(append([][2]int{}, first[1:]...), second[1:]...) {
+		add(e[0], e[1])
+	}
+	cur := x
+	for k := 0; k < tail; k++ {
+		m := role()
+		add(cur, m)
+		cur = m
+	}
+	// sometimes the tail loops back or a chain file also imports a tail file
+	if r.Chance(1, 3) {
+		add(cur, perm[r.Intn(n)])
+	}
+	// limits n with short+k < n <= long+k for some tail file k=1..tail
+	seen := map[int]bool{}
+	var limits []int
+	for k := 1; k <= tail; k++ {
+		for l := short + k + 1; l <= long+k; l++ {
+			if !seen[l] {
+				seen[l] = true
+				limits = append(limits, l)
+			}
+		}
+	}
+	return g, limits
+}
+
 // Spelling writes target as an import path seen from file `from`: relative (with ../ or
 // a detour through a sibling directory), ./-prefixed or root-relative; extension optional.
 func Spelling(r *fw.Rand, from, to string) string {
